@@ -137,3 +137,12 @@ Proof.
   destruct (calibrate outs) as [k lo]. cbn in Hk. subst k. split; [reflexivity|].
   change (2 ^ Z.of_nat 7) with 128 in Hr. exact Hr.
 Qed.
+
+(* the STORED value (lower if lower > 0 else top) is k/128 with 0 < k < 128 *)
+Theorem calibrate_stored_range outs :
+  let '(k, v) := calibrate_stored outs in k = 7%nat /\ 0 < v < 128.
+Proof.
+  unfold calibrate_stored. pose proof (calibrate_range outs) as H.
+  destruct (calibrate outs) as [k lo]. destruct H as (-> & Hr). cbn [calib_store].
+  split; [reflexivity|]. destruct (0 <? lo) eqn:E; [apply Z.ltb_lt in E|apply Z.ltb_ge in E]; lia.
+Qed.
